@@ -78,6 +78,7 @@ pub fn panic_class(msg: &str) -> &'static str {
 
 fn main() {
     exec::install_panic_hook();
+    subscribers::init_global();
     let args: Vec<String> = std::env::args().skip(1).collect();
     let code = engine::cli(&args);
     std::process::exit(code);
